@@ -12,6 +12,8 @@ def run(ctx, audit):
     ns, per = (SHARDS_THOROUGH, PER_SHARD_THOROUGH) if ctx.thorough else (SHARDS_QUICK, PER_SHARD_QUICK)
     common.run_sharded(ctx, "gfi_props", "shard_c05", [(i, per, ns) for i in range(ns)])
     extra(ctx)
+    import gfi_extras
+    gfi_extras.cond_mixed_support(ctx, "C05")
     return {"rule": RULE}
 
 
